@@ -506,10 +506,30 @@ func runProperty(o *Options, pc *PropertyConfig) int {
 				dir := filepath.Join(o.Out, "replays", o.Property)
 				os.MkdirAll(dir, 0o755)
 				path := filepath.Join(dir, smtIdent(fn)+"_undecidable.json")
-				data, _ := json.MarshalIndent(map[string]interface{}{"property": o.Property, "obligation": fn + "#all", "status": "function no longer verifiable", "verifier_output": is, "reproduced": false}, "", " ")
+				meta := map[string]interface{}{"property": o.Property, "obligation": fn + "#all", "status": "function no longer verifiable", "verifier_output": is, "reproduced": false}
+				reproduced := false
+				if pc.Replay != nil && !o.NoReplay {
+					// a representative input of the failing class, where the property has one for this function
+					if pkgDir, content, ok := pc.Replay(o, &groupResult{name: fn + "#all"}, map[string]string{}); ok {
+						out, failed := runReplay(o, pkgDir, content)
+						meta["replay_pkg"] = pkgDir
+						meta["replay_output"] = truncate(out, 4000)
+						meta["replay_failed_on_real_code"] = failed
+						meta["reproduced"] = failed
+						reproduced = failed
+						goFile := strings.TrimSuffix(path, ".json") + "_test.go.txt"
+						os.WriteFile(goFile, []byte(content), 0o644)
+						meta["replay_test"] = goFile
+					}
+				}
+				data, _ := json.MarshalIndent(meta, "", " ")
 				os.WriteFile(path, data, 0o644)
-				violations = append(violations, Violation{Obligation: fn + "#all(no longer verifiable)", Clause: is, Status: "undecidable", ReplayPath: path})
-				fmt.Printf("VIOLATION property=%s replay=%s obligation=%s no-failing-input-found\n", o.Property, path, fn+"#all(no-longer-verifiable)")
+				violations = append(violations, Violation{Obligation: fn + "#all(no longer verifiable)", Clause: is, Status: "undecidable", ReplayPath: path, Reproduced: reproduced})
+				suffix := " no-failing-input-found"
+				if reproduced {
+					suffix = ""
+				}
+				fmt.Printf("VIOLATION property=%s replay=%s obligation=%s%s\n", o.Property, path, fn+"#all(no-longer-verifiable)", suffix)
 				exitCode = 1
 			}
 		}
